@@ -290,6 +290,44 @@ def r6(ctx, facts):
     r.instance("rotl64", got == rref, "rotl64(v, n) = %s; reference: %s" % (fmt(got), fmt(rref)), rb.span)
 
 
+def r8(ctx, facts):
+    r = ctx.rule("R8", "every partition-key value that is present (RawValue::Value) is recorded, whatever its bytes: no further condition between the Value edge and the store into pk_values", floor=1)
+    from ..util import dj_of
+    pb = facts.one(r"^scylla::statement::prepared::PartitionKey::<'ps>::new$")
+    dj = dj_of(pb, facts)
+    ims = [c for c in pb.calls_to("core::ops::index::IndexMut::index_mut") if "pk_values" in slice_fields(pb, c.args[0]) or any(pb.local_name(l) == "pk_values" for l in backward_slice(pb, c.args[0])[0])]
+    if not ims:
+        raise AnchorLost("PartitionKey::new: no store into pk_values found")
+    nth = pb.calls_to("Iterator::nth")
+    if not nth:
+        raise AnchorLost("PartitionKey::new: the bound values are not fetched with nth()")
+    def is_value(st, k):
+        vs = st.get(k)
+        return vs is not None and dj.variant_names(k[1], vs) == {"Value"}
+    n = 0
+    for u in sorted(pb.live_blocks):
+        if pb.term(u)[0] != "switch":
+            continue
+        before = dj.states_before_stmt(u, len(pb.stmts(u)))
+        for v in pb.succ[u]:
+            sts = dj.states_on_edge(u, v)
+            if not sts:
+                continue
+            keys = [k for k in sts[0] if k[0] == "disc" and "RawValue" in (dj.disc_ty.get(k[1], "") or "")]
+            hit = [k for k in keys if all(is_value(st, k) for st in sts) and not (before and all(is_value(st, k) for st in before))]
+            if not hit:
+                continue
+            n += 1
+            reach = dj.feasible_reach_edge(u, v, removed_nodes=[c.bb for c in ims])
+            # anything after the loop body: the next round (nth again) or the return
+            bad = [x for x in list(pb.exits) + [c.bb for c in nth] if x in reach]
+            r.instance("present-value-is-recorded", not bad,
+                       "a bound key value that is present can reach the next key column / the return without being stored into pk_values (e.g. an extra test on its bytes): "
+                       "a zero-length component of a composite key would be left out of the token computation", pb.term_span(u))
+    if n == 0:
+        raise AnchorLost("PartitionKey::new: no branch that establishes `RawValue::Value` found")
+
+
 # the only place a statement handle may start with the default partitioner: fresh from PREPARE (the session then sets it from metadata)
 FRESH_HANDLE = ("PreparedStatement::new",)
 
@@ -346,7 +384,7 @@ def path_last_name(place):
 
 def check(ctx):
     facts = inline_view(ctx.facts("default"))
-    for fn in (r1, r2, r3, r4, r5, r6, r7):
+    for fn in (r1, r2, r3, r4, r5, r6, r7, r8):
         try:
             fn(ctx, facts)
         except AnchorLost as ex:
